@@ -170,7 +170,7 @@ Theorem linear_trend (interp : list Q -> list Q -> Q -> option Q) assign templat
   exists v y, num_of inject_Z qv = Some v /\ get p r = Some (TF y) /\ y == a * v + b.
 Proof.
   intros Ex W O H K D Ip NE Lin.
-  destruct (per_leaf Qle_bool Qeq_bool inject_Z interp Q_order_ok assign template rest q qv r W O H ks K D) as [v [Hv L]].
+  destruct (per_leaf Qle_bool Qeq_bool inject_Z interp TF Q_order_ok assign template rest q qv r W O H ks K D) as [v [Hv L]].
   destruct (L p Ip NE) as [y [ys [G [Iy F]]]]. exists v, y. repeat split; auto.
   apply (Ex (sort_keys Qle_bool ks) ys a b v y); [|exact Iy].
   eapply Forall2_impl_in; [|exact F]. intros x y' _ [inst [Ii [A Va]]]. apply (Lin inst x y' Ii A Va).
